@@ -53,6 +53,7 @@ DigitRuns == <<"1", "12", "3", "07", "101">>
 Suffixes == <<"", "A", "_F2____1____i", "'", "*", "B2", "_2", "a_", " x">>
 Pads == <<" ", "  ", "\t">>
 LabelText(c, v, d, s) == PairText(c, v) \o DigitRuns[d] \o Suffixes[s]
+LongTails == <<"q", "qx", "xq1", "zzq2_a", "qqqqq">>
 NumText(z, style) == CASE style = 1 -> ToString(z)
                        [] style = 2 -> "0" \o ToString(z)
                        [] style = 3 -> "00" \o ToString(z)
@@ -65,13 +66,15 @@ SpellingText(sp) ==
     [] sp.kind = "num" -> NumText(sp.z, sp.v)
     [] sp.kind = "label" -> LabelText(SymCode[sp.z], sp.v, sp.a, sp.b)
     [] sp.kind = "bad" -> (IF sp.a = 0 THEN PairText(sp.c, sp.v) ELSE LabelText(sp.c, sp.v, sp.a, sp.b))
+    \* a symbol run on by further letters names no element ("Heq", "Naqx1"): the whole leading run of letters must be the symbol
+    [] sp.kind = "badlong" -> PairText(SymCode[sp.z], sp.v) \o LongTails[sp.a]
 
 (* deuterium: "D" is deliberately read as hydrogen by the library; excluded from the rejected strings *)
 DeuteriumCode == <<4, 0>>
 BadCodes == {c \in ((1..26) \X (0..26)) : ~IsSymbolCode(c) /\ c # DeuteriumCode}
 
 (* what a spelling must resolve to: an atomic number, or 0 for "must be rejected" *)
-Lookup(sp) == IF sp.kind = "bad" THEN 0 ELSE IF sp.z \in ElementZ THEN sp.z ELSE 0     \* "0", "104", ... are digit strings naming no element
+Lookup(sp) == IF sp.kind \in {"bad", "badlong"} THEN 0 ELSE IF sp.z \in ElementZ THEN sp.z ELSE 0     \* "0", "104", ... are digit strings naming no element
 LookupInt(n) == IF n \in ElementZ THEN n ELSE 0
 
 (* ---- ordering and formulas --------------------------------------------------- *)
